@@ -201,14 +201,22 @@ fn newer_or_eq(cur: &O, upd: &O) -> Vec<O> {
     }
 }
 
-/// `x` is a successor computed for a stand-in report with a clamped fill; put the amended report's
-/// real fill back wherever the successor holds that report.
-fn with_filled(x: M, report: &O) -> M {
-    let fix = |o: O| if o.t == report.t && o.filled == report.filled.min(QTY - 1) { O { t: o.t, filled: report.filled } } else { o };
-    match x {
-        M::Open(o) => M::Open(fix(o)),
-        M::CancelInFlight(Some(o)) => M::CancelInFlight(Some(fix(o))),
-        other => other,
+/// Successors after an open report `o`; `finished` = the report leaves nothing to fill.
+fn open_report_step(m: &M, o: &O, finished: bool) -> Vec<M> {
+    if finished {
+        // an 'open' report with nothing left to fill: the order is finished
+        return match m.held() {
+            // report older than (or as old as) held data can only occur in inconsistent
+            // histories: honouring or ignoring it are both accepted
+            Some(c) if o.t <= c.t => vec![M::Untracked, m.clone()],
+            _ => vec![M::Untracked],
+        };
+    }
+    match m {
+        M::Untracked | M::OpenInFlight => vec![M::Open(o.clone())],
+        M::Open(c) => newer_or_eq(c, o).into_iter().map(M::Open).collect(),
+        M::CancelInFlight(None) => vec![M::CancelInFlight(Some(o.clone()))],
+        M::CancelInFlight(Some(c)) => newer_or_eq(c, o).into_iter().map(|x| M::CancelInFlight(Some(x))).collect(),
     }
 }
 
@@ -226,23 +234,9 @@ pub fn model_step(m: &M, input: &In) -> Vec<M> {
             M::Untracked => vec![M::OpenInFlight],
             other => vec![other.clone()],
         },
-        In::RepOpenAmended(o) if o.filled < QTY + 2 => model_step(m, &In::RepOpen(O { t: o.t, filled: o.filled.min(QTY - 1) })).into_iter().map(|x| with_filled(x, o)).collect(),
-        In::RepOpenAmended(o) => model_step(m, &In::RepOpen(O { t: o.t, filled: QTY })),
-        In::RepOpen(o) if o.filled >= QTY => {
-            // an 'open' report with nothing left to fill: the order is finished
-            match m.held() {
-                // report older than (or as old as) held data can only occur in inconsistent
-                // histories: honouring or ignoring it are both accepted
-                Some(c) if o.t <= c.t => vec![M::Untracked, m.clone()],
-                _ => vec![M::Untracked],
-            }
-        }
-        In::RepOpen(o) => match m {
-            M::Untracked | M::OpenInFlight => vec![M::Open(o.clone())],
-            M::Open(c) => newer_or_eq(c, o).into_iter().map(M::Open).collect(),
-            M::CancelInFlight(None) => vec![M::CancelInFlight(Some(o.clone()))],
-            M::CancelInFlight(Some(c)) => newer_or_eq(c, o).into_iter().map(|x| M::CancelInFlight(Some(x))).collect(),
-        },
+        // nothing left to fill is relative to the quantity the report itself states
+        In::RepOpen(o) => open_report_step(m, o, o.filled >= QTY),
+        In::RepOpenAmended(o) => open_report_step(m, o, o.filled >= QTY + 2),
         In::RepCancelInFlight(open) => match m {
             M::Untracked | M::OpenInFlight => vec![M::CancelInFlight(open.clone())],
             M::Open(c) => match open {
